@@ -12,11 +12,12 @@ pub struct RecDest {
     pub fail_at: Option<usize>,
     pub snaps: Vec<(bool, Vec<u8>)>,   // (at least one write completed, whole content) after each call
     pub keep: bool,
+    pub chunk: Option<usize>,          // accept at most this many bytes per write call (short writes are legal for Write)
 }
 impl RecDest {
     pub fn new(content: Vec<u8>, pos: u64, keep: bool) -> Self {
         let mut inner = Cursor::new(content); inner.set_position(pos);
-        RecDest { inner, calls: 0, writes: 0, fail_at: None, snaps: vec![], keep }
+        RecDest { inner, calls: 0, writes: 0, fail_at: None, snaps: vec![], keep, chunk: None }
     }
     fn tick(&mut self) -> std::io::Result<()> {
         self.calls += 1;
@@ -29,6 +30,7 @@ impl Write for RecDest {
     fn write(&mut self, b: &[u8]) -> std::io::Result<usize> {
         if b.is_empty() { return Ok(0); }
         self.tick()?;
+        let b = match self.chunk { Some(c) if b.len() > c => &b[..c], _ => b };
         let r = self.inner.write(b); self.writes += 1; self.snap(); r
     }
     fn flush(&mut self) -> std::io::Result<()> { Ok(()) }
@@ -205,4 +207,81 @@ pub fn run_c10(a: &Args) {
         }
     }
     out.finish(&a.out, "write_to_file sequences with valid entries on a destination empty beyond its start; the extracted predicate consistent_b is evaluated on the destination after every completed write/seek call and after an I/O error injected at a random call; non-trivial = the sequence emits at least one non-empty entry; distinct by snapshot text");
+}
+
+fn consistent_rs(r: &[u8], sec: usize, n: usize) -> bool {
+    if sec + 12 * n > r.len() { return false; }
+    (0..n).all(|i| { let e = &r[sec + 12 * i..sec + 12 * i + 12]; e.iter().all(|b| *b == 0) || {
+        let size = u32::from_le_bytes(e[4..8].try_into().unwrap()) as u64; let rva = u32::from_le_bytes(e[8..12].try_into().unwrap()) as u64; rva + size <= r.len() as u64 } })
+}
+
+/// C09 / C10 on whole dumps: live targets dumped into a pre-filled destination positioned at a non-zero
+/// offset, with short writes and with an I/O error injected at a chosen call
+pub fn run_live(a: &Args) {
+    use crate::live::*;
+    use crate::tl::{configure, gen_plan};
+    let mut rng = Rng::new(a.seed ^ 0x909);
+    let mut out = Out::new();
+    let work = format!("{}/tmp", a.out);
+    for case in 0..a.n {
+        let focus = ["c07", "c04", "c05"][(case % 3) as usize];
+        let mut plan = gen_plan(&mut rng, focus, &a.tier, case + 1);
+        if plan.crash == 3 { plan.crash = 1; }
+        plan.scen.threads.truncate(3);
+        if case == 0 && plan.napp == 0 { plan.scen.lines.push("appmem 0 100 4096".into()); plan.napp = 1; }   // the application-memory flush must be among the fault points
+        let target = match Target::spawn(&plan.scen, &work) { Ok(t) => t, Err(e) => { out.notes.push(format!("spawn failed: {e}")); continue; } };
+        // how many destination calls does a clean dump make?
+        let total = { let mut cfg = configure(&mut rng, &plan, &target); let mut d = RecDest::new(vec![], 0, false); let _ = cfg.writer.dump(&mut d); d.calls };
+        let mut runs: Vec<(Option<usize>, Option<usize>, bool)> = vec![(None, None, false), (None, Some(*rng.pick(&[1usize, 7, 100, 4096])), false), (None, None, true)];
+        // every call as a fault point on the first two targets (a dump takes milliseconds), a sample on the others
+        let ks: Vec<usize> = if a.tier == "thorough" || case < 2 { (2..=total).collect() } else { (0..5).map(|_| rng.range(2, total.max(3) as u64) as usize).collect() };
+        for k in ks { runs.push((Some(k), None, false)); }   // a destination that tears single writes cannot keep the header+directory write atomic: not combined with injected errors
+        for (fail_at, chunk, snapshots) in runs {
+            target.settle();
+            let mut cfg = configure(&mut rng, &plan, &target);
+            let start = *rng.pick(&[0u64, 1, 4095, 12345]);
+            // beyond the start: empty when an error is injected (C10's premise), otherwise old content longer than the image
+            let tail = if fail_at.is_some() || snapshots { 0 } else { 600_000 };
+            let dest0: Vec<u8> = (0..start + tail).map(|i| 0xA0u8.wrapping_add((i % 29) as u8)).collect();
+            let mut dest = RecDest::new(dest0.clone(), start, snapshots); dest.fail_at = fail_at; dest.chunk = chunk;
+            let res = quiet_catch(std::panic::AssertUnwindSafe(|| cfg.writer.dump(&mut dest).map_err(|e| format!("{e:?}"))));
+            let fin = dest.inner.get_ref().clone();
+            let label = format!("fail_at {fail_at:?} chunk {chunk:?} start {start}");
+            let mut l = Line::new("const"); l.u(case).u(1);
+            let mut r = Line::bare();
+            let prefix_ok = fin.len() as u64 >= start && fin[..start as usize] == dest0[..start as usize];
+            match res {
+                Err(p) => { r.0 = format!("!dump panicked ({label}): {p}"); }
+                Ok(Ok(img)) => {
+                    out.count(if fail_at.is_some() { "run.ok_despite_injected_error" } else { "run.ok" });
+                    let s0 = start as usize;
+                    let stored_ok = fin.len() >= s0 + img.len() && fin[s0..s0 + img.len()] == img[..];
+                    let suffix_ok = if dest0.len() > s0 + img.len() { fin.len() == dest0.len() && fin[s0 + img.len()..] == dest0[s0 + img.len()..] } else { fin.len() == s0 + img.len() };
+                    if prefix_ok && stored_ok && suffix_ok { r.u(case).u(1); } else { r.0 = format!("!destination differs from the returned image ({label}): bytes before the start untouched {prefix_ok}, stored bytes equal the image {stored_ok}, bytes beyond the image untouched {suffix_ok}"); }
+                }
+                Ok(Err(_)) => {
+                    out.count("run.error_returned");
+                    let region = if fin.len() as u64 >= start { &fin[start as usize..] } else { &fin[0..0] };
+                    // the call that failed may be the very first write: then nothing has reached the destination yet
+                    let ok = prefix_ok && (region.is_empty() || consistent_rs(region, 32, 18));
+                    if ok { r.u(case).u(1); } else { r.0 = format!("!after an injected I/O error ({label}) the destination is not a consistent truncated minidump (prefix untouched {prefix_ok}, region {} bytes)", region.len()); }
+                    // a sample goes through the extracted predicate as well
+                    if !region.is_empty() && region.len() < 400_000 && rng.chance(1, 4) { let mut jl = Line::new("c10_consistent"); jl.u(32).u(18).vec(region); out.case(jl.s(), "1", true); out.count("predicate.coq_judged"); }
+                }
+            }
+            out.case(l.s(), r.s(), fail_at.is_some() || chunk.is_some() || start != 0);
+            if snapshots {
+                let mut bad = None;
+                for (k, (written, content)) in dest.snaps.iter().enumerate() { if !*written { continue; } let region = &content[(start as usize).min(content.len())..]; if !consistent_rs(region, 32, 18) { bad = Some((k, region.len())); break; } }
+                let mut l = Line::new("const"); l.u(case).u(2); let mut r = Line::bare();
+                match bad { None => { r.u(case).u(2); } Some((k, n)) => { r.0 = format!("!after destination call {k} of a live dump the {n} bytes written so far are not a consistent truncated minidump"); } }
+                out.count_n("snapshots.checked", dest.snaps.len() as u64);
+                out.case(l.s(), r.s(), true);
+                // two snapshots through the extracted predicate
+                for _ in 0..2 { if dest.snaps.is_empty() { break; } let (w, c) = rng.pick(&dest.snaps); if *w && c.len() < 400_000 { let region = &c[(start as usize).min(c.len())..]; let mut jl = Line::new("c10_consistent"); jl.u(32).u(18).vec(region); out.case(jl.s(), "1", true); out.count("predicate.coq_judged"); } }
+            }
+        }
+    }
+    out.assumptions.push("a destination may accept fewer bytes than offered per write call (std::io::Write contract); an injected error does not modify the destination".into());
+    out.finish(&a.out, "whole dumps of live targets into a destination pre-filled with old content and positioned at offsets {0,1,4095,12345}: clean, with writes limited to {1,7,64,100,4096} bytes per call, with a snapshot after every call, and with an I/O error injected at a call k (random k in the quick tier, every k in the thorough tier): on Ok the stored bytes equal the returned image and nothing before the start or beyond the image changes; on Err the destination is a consistent truncated minidump; snapshots judged by a Rust transcription of consistent_b and a sample by the extracted predicate");
 }
